@@ -715,3 +715,400 @@ Proof.
   - rewrite H. reflexivity.
   - rewrite H. reflexivity.
 Qed.
+
+(* ---------- comma-separated lists: @constructor, @packageonly, @ignore ---------- *)
+Definition COMMA : list (N * N) := [(44, 44)]%N.
+Definition comma : ascii := ","%char.
+
+Section Lists.
+Variable item : re.                       (* one list item *)
+Variable itemcls : list (N * N).          (* the characters that can continue an item *)
+Variable item_len : list ascii -> option nat.   (* maximal munch: how many characters the item at the head of the input has *)
+
+Hypothesis H_item : forall k, rejects (in_cls itemcls) k -> forall s i c,
+  m item s i c k = match item_len s with Some n => k (skipn n s) (i + n) c | None => None end.
+Hypothesis H_pos : forall s n, item_len s = Some n -> (1 <= n)%nat.
+Hypothesis H_head : forall x xs n, item_len (x :: xs) = Some n -> in_cls itemcls x = true.
+Hypothesis H_nil : item_len [] = None.
+Hypothesis H_ws : forall y, is_ws y = true -> in_cls itemcls y = false.
+Hypothesis H_comma : in_cls itemcls comma = false.
+
+Definition body : re := RCat (RStar (RCls WS)) (RCat (RCls COMMA) (RCat (RStar (RCls WS)) item)).
+Definition list_re : re := RCat item (RCat (RStar body) (ROpt (RCat (RStar (RCls WS)) (RCls COMMA)))).
+Definition args_re : re := RCat (ROpt (RCat (RPlus (RCls WS)) (RGrp 1 list_re))) (RCat (tail_re WS) REot).
+
+Lemma in_comma x : in_cls COMMA x = Ascii.eqb comma x.
+Proof. apply (in_cls_one comma x). Qed.
+Lemma ws_not_comma y : is_ws y = true -> in_cls COMMA y = false.
+Proof. revert y. apply disjoint_sound. vm_compute. reflexivity. Qed.
+
+Lemma item_rejects_ws k : rejects (in_cls itemcls) k -> rejects is_ws (fun s i c => m item s i c k).
+Proof.
+  intros Hk x xs i c Hx. rewrite (H_item k Hk). destruct (item_len (x :: xs)) as [n|] eqn:E; [|reflexivity].
+  pose proof (H_head x xs n E) as Hh. rewrite (H_ws x Hx) in Hh. discriminate.
+Qed.
+
+(* "blanks , blanks item": how many characters, by maximal munch *)
+Definition body_len (s : list ascii) : option nat :=
+  match dropw is_ws s with
+  | x :: r => if Ascii.eqb comma x then
+                match item_len (dropw is_ws r) with
+                | Some n => Some (List.length (takew is_ws s) + 1 + List.length (takew is_ws r) + n)
+                | None => None
+                end
+              else None
+  | [] => None
+  end.
+
+Lemma skipn_run p s : skipn (List.length (takew p s)) s = dropw p s.
+Proof. apply skipn_takew. Qed.
+
+Lemma m_body k : rejects (in_cls itemcls) k -> forall s i c,
+  m body s i c k = match body_len s with Some n => k (skipn n s) (i + n) c | None => None end.
+Proof.
+  intros Hk s i c. unfold body, body_len.
+  rewrite m_cat, (m_star_single (RCls WS) is_ws (SgCls WS)).
+  assert (R1 : rejects is_ws (fun s' i' c' => m (RCat (RCls COMMA) (RCat (RStar (RCls WS)) item)) s' i' c' k)).
+  { intros x xs j d Hx. rewrite m_cat, (m_single (RCls COMMA) (in_cls COMMA) (SgCls COMMA)). rewrite (ws_not_comma x Hx). reflexivity. }
+  rewrite star_p_det by exact R1.
+  rewrite m_cat, (m_single (RCls COMMA) (in_cls COMMA) (SgCls COMMA)).
+  destruct (dropw is_ws s) as [|x r] eqn:Ed; [reflexivity|]. rewrite in_comma. destruct (Ascii.eqb comma x) eqn:Ex; [|reflexivity].
+  rewrite m_cat, (m_star_single (RCls WS) is_ws (SgCls WS)).
+  rewrite star_p_det by (apply item_rejects_ws; exact Hk).
+  rewrite (H_item k Hk). destruct (item_len (dropw is_ws r)) as [n|]; [|reflexivity].
+  f_equal; [|lia].
+  (* the input after the whole body *)
+  rewrite <- !Nat.add_assoc. rewrite skipn_add, skipn_run, Ed.
+  change (skipn (1 + (List.length (takew is_ws r) + n)) (x :: r)) with (skipn (List.length (takew is_ws r) + n) r).
+  rewrite skipn_add, skipn_run. reflexivity.
+Qed.
+
+Lemma body_len_pos s n : body_len s = Some n -> (1 <= n)%nat.
+Proof.
+  unfold body_len. destruct (dropw is_ws s) as [|x r]; [discriminate|]. destruct (Ascii.eqb comma x); [|discriminate].
+  destruct (item_len (dropw is_ws r)); [|discriminate]. intros H. inversion H. lia.
+Qed.
+
+Lemma body_rejects_item k : rejects (in_cls itemcls) k -> rejects (in_cls itemcls) (fun s i c => m body s i c k).
+Proof.
+  intros Hk x xs i c Hx. rewrite (m_body k Hk). unfold body_len.
+  assert (Hw : is_ws x = false) by (destruct (is_ws x) eqn:E; [rewrite (H_ws x E) in Hx; discriminate|reflexivity]).
+  cbn [dropw]. rewrite Hw. destruct (Ascii.eqb comma x) eqn:E; [|reflexivity].
+  apply Ascii.eqb_eq in E. subst x. rewrite H_comma in Hx. discriminate.
+Qed.
+
+(* the star over the body: the longest chain first, one body less on every failure *)
+Fixpoint chain (k : K) (fuel : nat) (s : list ascii) (i : nat) (c : caps) : option caps :=
+  match fuel with
+  | O => k s i c
+  | S f => match body_len s with
+           | Some n => match chain k f (skipn n s) (i + n) c with Some r => Some r | None => k s i c end
+           | None => k s i c
+           end
+  end.
+
+Lemma chain_rejects k fuel : rejects (in_cls itemcls) k -> rejects (in_cls itemcls) (chain k fuel).
+Proof.
+  intros Hk x xs i c Hx. destruct fuel as [|f]; cbn [chain]; [apply Hk; exact Hx|].
+  destruct (body_len (x :: xs)) as [n|] eqn:E; [|apply Hk; exact Hx].
+  (* a body cannot start with an item character *)
+  exfalso. unfold body_len in E. assert (Hw : is_ws x = false) by (destruct (is_ws x) eqn:E'; [rewrite (H_ws x E') in Hx; discriminate|reflexivity]).
+  cbn [dropw] in E. rewrite Hw in E. destruct (Ascii.eqb comma x) eqn:Ec; [|discriminate].
+  apply Ascii.eqb_eq in Ec. subst x. rewrite H_comma in Hx. discriminate.
+Qed.
+
+Lemma star_loop_body k : rejects (in_cls itemcls) k -> forall fuel s i c,
+  star_loop (m body) k fuel s i c = chain k fuel s i c.
+Proof.
+  intros Hk fuel. induction fuel as [|f IH]; intros s i c; cbn [star_loop chain]; [reflexivity|].
+  assert (Hr : rejects (in_cls itemcls) (fun s' i' c' => if Nat.eqb i' i then None else star_loop (m body) k f s' i' c')).
+  { intros x xs j d Hx. destruct (Nat.eqb j i); [reflexivity|]. rewrite IH. apply (chain_rejects k f Hk). exact Hx. }
+  rewrite (m_body _ Hr). destruct (body_len s) as [n|] eqn:E; [|reflexivity].
+  pose proof (body_len_pos s n E) as Hn. replace (Nat.eqb (i + n) i) with false by (symmetry; apply Nat.eqb_neq; lia).
+  rewrite IH. reflexivity.
+Qed.
+
+(* the end of the list: an optional "blanks ," and then the free-text tail; the position is recorded as the end of group 1 *)
+Definition k_end (i0 : nat) : K := fun s i c => if tail_ok WS s then Some ((1, (i0, i)) :: c) else None.
+Definition k_opt (i0 : nat) : K := fun s i c =>
+  match (match dropw is_ws s with
+         | x :: r => if Ascii.eqb comma x then k_end i0 r (i + List.length (takew is_ws s) + 1) c else None
+         | [] => None
+         end) with
+  | Some r => Some r
+  | None => k_end i0 s i c
+  end.
+
+Lemma k_end_rejects i0 : rejects (in_cls itemcls) (k_end i0).
+Proof.
+  intros x xs i c Hx. unfold k_end. cbn [tail_ok]. change (in_cls WS x) with (is_ws x).
+  destruct (is_ws x) eqn:E; [rewrite (H_ws x E) in Hx; discriminate|reflexivity].
+Qed.
+
+Lemma k_opt_rejects i0 : rejects (in_cls itemcls) (k_opt i0).
+Proof.
+  intros x xs i c Hx. unfold k_opt.
+  assert (Hw : is_ws x = false) by (destruct (is_ws x) eqn:E; [rewrite (H_ws x E) in Hx; discriminate|reflexivity]).
+  cbn [dropw]. rewrite Hw. destruct (Ascii.eqb comma x) eqn:Ec.
+  - apply Ascii.eqb_eq in Ec. subst x. rewrite H_comma in Hx. discriminate.
+  - apply k_end_rejects. exact Hx.
+Qed.
+
+Lemma m_trailing_comma i0 s i c :
+  m (ROpt (RCat (RStar (RCls WS)) (RCls COMMA))) s i c (fun s' i' c' => m (RCat (tail_re WS) REot) s' i' ((1, (i0, i')) :: c') final) = k_opt i0 s i c.
+Proof.
+  rewrite m_opt, m_cat, (m_star_single (RCls WS) is_ws (SgCls WS)).
+  assert (R1 : rejects is_ws (fun s' i' c' => m (RCls COMMA) s' i' c' (fun s'0 i'0 c'0 => m (RCat (tail_re WS) REot) s'0 i'0 ((1, (i0, i'0)) :: c'0) final))).
+  { intros x xs j d Hx. rewrite (m_single (RCls COMMA) (in_cls COMMA) (SgCls COMMA)). rewrite (ws_not_comma x Hx). reflexivity. }
+  rewrite star_p_det by exact R1. rewrite (m_single (RCls COMMA) (in_cls COMMA) (SgCls COMMA)).
+  unfold k_opt, k_end. rewrite !m_tail.
+  destruct (dropw is_ws s) as [|x r]; [reflexivity|]. rewrite in_comma. destruct (Ascii.eqb comma x); [|reflexivity].
+  rewrite m_tail. replace (S (i + List.length (takew is_ws s))) with (i + List.length (takew is_ws s) + 1) by lia. reflexivity.
+Qed.
+
+Lemma m_star r s i c k : m (RStar r) s i c k = star_loop (m r) k (S (List.length s)) s i c.
+Proof. reflexivity. Qed.
+
+Lemma m_star_body k s i c : rejects (in_cls itemcls) k -> m (RStar body) s i c k = chain k (S (List.length s)) s i c.
+Proof. intros Hk. rewrite m_star. apply star_loop_body. exact Hk. Qed.
+
+Lemma chain_ext k1 k2 : (forall s i c, k1 s i c = k2 s i c) -> forall fuel s i c, chain k1 fuel s i c = chain k2 fuel s i c.
+Proof.
+  intros H fuel. induction fuel as [|f IH]; intros s i c; cbn [chain]; [apply H|].
+  destruct (body_len s); [rewrite IH, H; reflexivity|apply H].
+Qed.
+
+(* the whole list inside group 1, started at position i *)
+Theorem m_list s i c :
+  m (RGrp 1 list_re) s i c (fun s' i' c' => m (RCat (tail_re WS) REot) s' i' c' final) =
+  match item_len s with
+  | Some n => chain (k_opt i) (S (List.length (skipn n s))) (skipn n s) (i + n) c
+  | None => None
+  end.
+Proof.
+  rewrite m_grp. unfold list_re. rewrite m_cat.
+  set (Kt := fun s'0 i'0 c'0 => m (RCat (tail_re WS) REot) s'0 i'0 ((1, (i, i'0)) :: c'0) final).
+  set (Ko := fun s' i' c' => m (ROpt (RCat (RStar (RCls WS)) (RCls COMMA))) s' i' c' Kt).
+  assert (Heq : forall s0 i1 c1, Ko s0 i1 c1 = k_opt i s0 i1 c1) by (intros; apply m_trailing_comma).
+  assert (Hko : rejects (in_cls itemcls) Ko) by (intros y ys a b Hy; rewrite Heq; apply k_opt_rejects; exact Hy).
+  assert (Hk : rejects (in_cls itemcls) (fun s' i' c' => m (RCat (RStar body) (ROpt (RCat (RStar (RCls WS)) (RCls COMMA)))) s' i' c' Kt)).
+  { intros x xs j d Hx. rewrite m_cat. change (m (RStar body) (x :: xs) j d Ko = None). rewrite (m_star_body Ko _ _ _ Hko).
+    apply (chain_rejects Ko _ Hko). exact Hx. }
+  rewrite (H_item _ Hk). destruct (item_len s) as [n|]; [|reflexivity].
+  rewrite m_cat. change (m (RStar body) (skipn n s) (i + n) c Ko = chain (k_opt i) (S (List.length (skipn n s))) (skipn n s) (i + n) c).
+  rewrite (m_star_body Ko _ _ _ Hko). apply chain_ext. exact Heq.
+Qed.
+
+(* everything after the keyword *)
+Definition list_caps (i : nat) (s : list ascii) : option caps :=
+  match (match s with
+         | x :: _ => if is_ws x then
+                       let s5 := dropw is_ws s in
+                       let i5 := i + List.length (takew is_ws s) in
+                       match item_len s5 with
+                       | Some n => chain (k_opt i5) (S (List.length (skipn n s5))) (skipn n s5) (i5 + n) []
+                       | None => None
+                       end
+                     else None
+         | [] => None
+         end) with
+  | Some r => Some r
+  | None => if tail_ok WS s then Some [] else None
+  end.
+
+Theorem m_args s i : m args_re s i [] final = list_caps i s.
+Proof.
+  unfold args_re, list_caps. rewrite m_cat, m_opt, m_cat.
+  assert (Hr : rejects is_ws (fun s' i' c' => m (RGrp 1 list_re) s' i' c' (fun s'0 i'0 c'0 => m (RCat (tail_re WS) REot) s'0 i'0 c'0 final))).
+  { intros x xs j d Hx. rewrite m_list. destruct (item_len (x :: xs)) as [n|] eqn:E; [|reflexivity].
+    pose proof (H_head x xs n E) as Hh. rewrite (H_ws x Hx) in Hh. discriminate. }
+  rewrite (m_plus_det WS) by exact Hr.
+  rewrite m_tail.
+  destruct s as [|x xs]; [reflexivity|]. change (in_cls WS x) with (is_ws x). destruct (is_ws x); [|reflexivity].
+  rewrite m_list. reflexivity.
+Qed.
+End Lists.
+
+(* ---------- where the list ends: positions ---------- *)
+Section ListEnd.
+Variable item_len : list ascii -> option nat.
+
+Definition body_len' := body_len item_len.
+
+(* the end of the list at the current position: with a trailing "blanks ," if the tail is fine after it, else without *)
+Definition end_here (s : list ascii) (i : nat) : option nat :=
+  match (match dropw is_ws s with
+         | x :: r => if Ascii.eqb comma x then (if tail_ok WS r then Some (i + List.length (takew is_ws s) + 1) else None) else None
+         | [] => None
+         end) with
+  | Some e => Some e
+  | None => if tail_ok WS s then Some i else None
+  end.
+
+Fixpoint chain_end (fuel : nat) (s : list ascii) (i : nat) : option nat :=
+  match fuel with
+  | O => end_here s i
+  | S f => match body_len' s with
+           | Some n => match chain_end f (skipn n s) (i + n) with Some r => Some r | None => end_here s i end
+           | None => end_here s i
+           end
+  end.
+
+Lemma k_opt_end i0 s i c : k_opt i0 s i c = option_map (fun e => (1, (i0, e)) :: c) (end_here s i).
+Proof.
+  unfold k_opt, k_end, end_here. destruct (dropw is_ws s) as [|x r].
+  - destruct (tail_ok WS s); reflexivity.
+  - destruct (Ascii.eqb comma x); [destruct (tail_ok WS r); [reflexivity|]|]; destruct (tail_ok WS s); reflexivity.
+Qed.
+
+Lemma chain_is_end i0 fuel : forall s i c,
+  chain item_len (k_opt i0) fuel s i c = option_map (fun e => (1, (i0, e)) :: c) (chain_end fuel s i).
+Proof.
+  induction fuel as [|f IH]; intros s i c; cbn [chain chain_end]; [apply k_opt_end|].
+  unfold body_len'. destruct (body_len item_len s) as [n|]; [|apply k_opt_end].
+  rewrite IH. destruct (chain_end f (skipn n s) (i + n)); [reflexivity|apply k_opt_end].
+Qed.
+
+Lemma end_here_shift a s i : end_here s (a + i) = option_map (fun e => a + e) (end_here s i).
+Proof.
+  unfold end_here. destruct (dropw is_ws s) as [|x r].
+  - destruct (tail_ok WS s); reflexivity.
+  - destruct (Ascii.eqb comma x); [destruct (tail_ok WS r); [cbn; f_equal; lia|]|]; destruct (tail_ok WS s); reflexivity.
+Qed.
+
+Lemma chain_end_shift a fuel : forall s i, chain_end fuel s (a + i) = option_map (fun e => a + e) (chain_end fuel s i).
+Proof.
+  induction fuel as [|f IH]; intros s i; cbn [chain_end]; [apply end_here_shift|].
+  destruct (body_len' s) as [n|]; [|apply end_here_shift].
+  rewrite <- Nat.add_assoc, IH. destruct (chain_end f (skipn n s) (i + n)); [reflexivity|apply end_here_shift].
+Qed.
+
+(* wherever the list is taken to end, the free-text tail follows, and the end is not before the current position *)
+Lemma end_here_sound s i e : end_here s i = Some e -> (i <= e)%nat /\ tail_ok WS (skipn (e - i) s) = true.
+Proof.
+  unfold end_here. destruct (dropw is_ws s) as [|x r] eqn:Ed.
+  - destruct (tail_ok WS s) eqn:Et; [|discriminate]. intros H. inversion H. subst. split; [lia|]. rewrite Nat.sub_diag. exact Et.
+  - destruct (Ascii.eqb comma x).
+    + destruct (tail_ok WS r) eqn:Er.
+      * intros H. inversion H. subst. split; [lia|].
+        replace (i + List.length (takew is_ws s) + 1 - i) with (List.length (takew is_ws s) + 1) by lia.
+        rewrite (skipn_after_run is_ws s x r Ed). exact Er.
+      * destruct (tail_ok WS s) eqn:Et; [|discriminate]. intros H. inversion H. subst. split; [lia|]. rewrite Nat.sub_diag. exact Et.
+    + destruct (tail_ok WS s) eqn:Et; [|discriminate]. intros H. inversion H. subst. split; [lia|]. rewrite Nat.sub_diag. exact Et.
+Qed.
+
+Lemma chain_end_sound fuel : forall s i e, chain_end fuel s i = Some e -> (i <= e)%nat /\ tail_ok WS (skipn (e - i) s) = true.
+Proof.
+  induction fuel as [|f IH]; intros s i e; cbn [chain_end]; [apply end_here_sound|].
+  destruct (body_len' s) as [n|] eqn:Eb; [|apply end_here_sound].
+  destruct (chain_end f (skipn n s) (i + n)) as [r|] eqn:Ec; [|apply end_here_sound].
+  intros H. inversion H. subst r. destruct (IH _ _ _ Ec) as [H1 H2]. split; [lia|].
+  replace (e - i) with (n + (e - (i + n))) by lia. rewrite skipn_add. exact H2.
+Qed.
+
+(* the list group, relative to the start of the list *)
+Definition spec_list (s5 : list ascii) : option nat :=
+  match item_len s5 with
+  | Some n => chain_end (S (List.length (skipn n s5))) (skipn n s5) n
+  | None => None
+  end.
+End ListEnd.
+
+(* ---------- the two kinds of items ---------- *)
+Definition HEADC : list (N * N) := [(65, 90); (95, 95); (97, 122)]%N.
+Definition ident_item : re := RCat (RCls HEADC) (RStar (RCls WORD)).
+Definition ident_len (s : list ascii) : option nat :=
+  match s with x :: xs => if in_cls HEADC x then Some (S (List.length (takew is_word xs))) else None | [] => None end.
+
+Lemma ident_item_ok k : rejects (in_cls WORD) k -> forall s i c,
+  m ident_item s i c k = match ident_len s with Some n => k (skipn n s) (i + n) c | None => None end.
+Proof.
+  intros Hk s i c. unfold ident_item, ident_len. rewrite m_cat, (m_single (RCls HEADC) (in_cls HEADC) (SgCls HEADC)).
+  destruct s as [|x xs]; [reflexivity|]. destruct (in_cls HEADC x); [|reflexivity].
+  rewrite (m_star_single (RCls WORD) is_word (SgCls WORD)), star_p_det by exact Hk.
+  cbn [skipn]. rewrite skipn_run. f_equal. lia.
+Qed.
+
+Lemma headc_word : forall y, in_cls HEADC y = true -> in_cls WORD y = true.
+Proof.
+  assert (H : forallb (fun n => negb (in_cls HEADC (ascii_of_nat n)) || in_cls WORD (ascii_of_nat n)) (seq 0 256) = true) by (vm_compute; reflexivity).
+  rewrite forallb_forall in H. intros y Hy. specialize (H (nat_of_ascii y)). rewrite ascii_nat_embedding in H.
+  assert (Hin : In (nat_of_ascii y) (seq 0 256)) by (apply in_seq; pose proof (nat_ascii_bounded y); lia).
+  specialize (H Hin). rewrite Hy in H. exact H.
+Qed.
+
+Definition run_item (cl : list (N * N)) : re := RPlus (RCls cl).
+Definition run_len (cl : list (N * N)) (s : list ascii) : option nat :=
+  match s with x :: _ => if in_cls cl x then Some (List.length (takew (in_cls cl) s)) else None | [] => None end.
+
+Lemma run_item_ok cl k : rejects (in_cls cl) k -> forall s i c,
+  m (run_item cl) s i c k = match run_len cl s with Some n => k (skipn n s) (i + n) c | None => None end.
+Proof.
+  intros Hk s i c. unfold run_item, run_len. rewrite (m_plus_det cl k Hk). destruct s as [|x xs]; [reflexivity|].
+  destruct (in_cls cl x); [|reflexivity]. rewrite skipn_run. reflexivity.
+Qed.
+
+(* ---------- the whole line of a list annotation ---------- *)
+Definition list_annot_re (kw : list ascii) (item : re) : re :=
+  RCat RBot (RCat (RStar (RCls WS)) (RCat (lit slashes) (RCat (RStar (RCls WS)) (RCat (lit kw) (args_re item))))).
+
+(* the text of the list group (None: the expression does not match at all; Some None: it matches without a list) *)
+Definition spec_list_line (item_len : list ascii -> option nat) (kw s : list ascii) : option (option (list ascii)) :=
+  match strip_head kw s with
+  | None => None
+  | Some s4 =>
+      match (match s4 with
+             | x :: _ => if is_ws x then
+                           match spec_list item_len (dropw is_ws s4) with
+                           | Some n => Some (firstn n (dropw is_ws s4))
+                           | None => None
+                           end
+                         else None
+             | [] => None
+             end) with
+      | Some g => Some (Some g)
+      | None => if tail_ok WS s4 then Some None else None
+      end
+  end.
+
+Section ListLine.
+Variable item : re.
+Variable itemcls : list (N * N).
+Variable item_len : list ascii -> option nat.
+Hypothesis H_item : forall k, rejects (in_cls itemcls) k -> forall s i c,
+  m item s i c k = match item_len s with Some n => k (skipn n s) (i + n) c | None => None end.
+Hypothesis H_pos : forall s n, item_len s = Some n -> (1 <= n)%nat.
+Hypothesis H_head : forall x xs n, item_len (x :: xs) = Some n -> in_cls itemcls x = true.
+Hypothesis H_nil : item_len [] = None.
+Hypothesis H_ws : forall y, is_ws y = true -> in_cls itemcls y = false.
+Hypothesis H_comma : in_cls itemcls comma = false.
+
+Theorem list_line_group a kw text :
+  is_ws a = false ->
+  match re_find (list_annot_re (a :: kw) item) text with
+  | Some c => exists g, spec_list_line item_len (a :: kw) (list_ascii_of_string text) = Some g /\
+                        group c 1 text = match g with Some t => string_of_list_ascii t | None => EmptyString end
+  | None => spec_list_line item_len (a :: kw) (list_ascii_of_string text) = None
+  end.
+Proof.
+  intros Ha. unfold list_annot_re, spec_list_line. rewrite re_find_anchored, (m_head a kw _ _ _ Ha).
+  set (l := list_ascii_of_string text).
+  destruct (strip_head (a :: kw) l) as [s4|] eqn:E; [|reflexivity].
+  pose proof (strip_head_skipn _ _ _ E) as Hsk. set (i := List.length l - List.length s4) in *.
+  rewrite (m_args item itemcls item_len H_item H_head H_ws H_comma). unfold list_caps.
+  destruct s4 as [|x xs] eqn:Es4.
+  - (* nothing after the keyword *) cbn [tail_ok]. eexists. split; [reflexivity|]. reflexivity.
+  - rewrite <- Es4 in *. destruct (is_ws x) eqn:Ex.
+    + set (s5 := dropw is_ws s4). set (i5 := i + List.length (takew is_ws s4)).
+      assert (H5 : skipn i5 l = s5) by (unfold i5; rewrite skipn_add, Hsk; apply skipn_run).
+      unfold spec_list. destruct (item_len s5) as [n|] eqn:En.
+      * rewrite chain_is_end. replace (i5 + n) with (i5 + n) by reflexivity. rewrite chain_end_shift.
+        destruct (chain_end item_len (S (List.length (skipn n s5))) (skipn n s5) n) as [e|] eqn:Ec; cbn [option_map].
+        -- eexists. split; [reflexivity|].
+           rewrite (group_seg text _ 1 i5 (i5 + e)) by (cbn; reflexivity).
+           replace (i5 + e - i5) with e by lia. fold l. rewrite H5. reflexivity.
+        -- destruct (tail_ok WS s4); [eexists; split; [reflexivity|reflexivity]|reflexivity].
+      * destruct (tail_ok WS s4); [eexists; split; [reflexivity|reflexivity]|reflexivity].
+    + destruct (tail_ok WS s4); [eexists; split; [reflexivity|reflexivity]|reflexivity].
+Qed.
+End ListLine.
